@@ -57,13 +57,60 @@ class RawTok(Model):
     def __neg__(self):
         return RawTok(("neg", self.origin), self.shape)
 
+    def __rmul__(self, o):
+        return RawTok(("*", getattr(o, "origin", o), self.origin), self.shape)
+
+    def __radd__(self, o):
+        return RawTok(("+", getattr(o, "origin", o), self.origin), self.shape)
+
+    def __lt__(self, o):
+        return self._bin("<", o)
+
+    def __le__(self, o):
+        return self._bin("<=", o)
+
+    def __gt__(self, o):
+        return self._bin(">", o)
+
+    def __ge__(self, o):
+        return self._bin(">=", o)
+
+    def __len__(self):
+        if not self.shape:
+            raise TypeError("len() of unsized object")
+        return self.shape[0] if isinstance(self.shape[0], int) else 3
+
+    @property
+    def T(self):
+        return RawTok(("T", self.origin), self.shape)
+
     def __repr__(self):
         return "Raw(%r)" % (self.origin,)
 
 
+INTERN = {}      # large index expressions -> short names (hash-consing keeps origin trees small)
+INTERN_REV = {}
+
+
+def intern(o):
+    r = repr(o)
+    if len(r) <= 160:
+        return o
+    if r not in INTERN:
+        INTERN[r] = ("sel#", len(INTERN))
+        INTERN_REV[INTERN[r]] = o
+    return INTERN[r]
+
+
+def unintern(o):
+    if isinstance(o, tuple) and len(o) == 2 and o[0] == "sel#":
+        return INTERN_REV.get(o, o)
+    return o
+
+
 def key_of(idx):
     if isinstance(idx, (RawTok, ArrTok)):
-        return idx.origin
+        return intern(idx.origin)
     if isinstance(idx, slice):
         return ("slice", idx.start, idx.stop, idx.step)
     return idx
@@ -187,6 +234,24 @@ class ArrTok(Model):
     def __truediv__(self, o):
         return OpTok("__truediv__", self, o)
 
+    def __rmul__(self, o):
+        return OpTok("__rmul__", self, o)
+
+    def __radd__(self, o):
+        return OpTok("__radd__", self, o)
+
+    def __rsub__(self, o):
+        return OpTok("__rsub__", self, o)
+
+    def __rtruediv__(self, o):
+        return OpTok("__rtruediv__", self, o)
+
+    def min(self, *a, **k):
+        return OpTok("min", self, None)
+
+    def max(self, *a, **k):
+        return OpTok("max", self, None)
+
     def __lt__(self, o):
         return OpTok("__lt__", self, o)
 
@@ -263,6 +328,8 @@ def array_factory(values=None, unit=None, name=""):
         return ArrTok(("num", values), unit if unit is not None else "dimensionless", (), name)
     if isinstance(values, (list, tuple)):
         return ArrTok(("list", tuple(values)), unit if unit is not None else "dimensionless", (len(values),), name)
+    if isinstance(values, Model) and hasattr(values, "origin"):
+        return ArrTok(values.origin, unit if unit is not None else "dimensionless", getattr(values, "shape", (3,)) if isinstance(getattr(values, "shape", None), tuple) else (3,), name)
     raise Unsupported("Array(%r)" % (values,))
 
 
